@@ -260,14 +260,17 @@ def f5_base128(ctx, repo):
     rcont = set()
     rover = set()
     rshift = set()
+    # the reader's accumulator is the name that is re-bound from itself shifted left (whatever it is called); any other
+    # masked name is the current byte
+    ACC = next((st.targets[0].id for st in ast.walk(up.node) if isinstance(st, ast.Assign) and isinstance(st.targets[0], ast.Name) and any(isinstance(x, ast.BinOp) and isinstance(x.op, ast.LShift) and isinstance(x.left, ast.Name) and x.left.id == st.targets[0].id for x in ast.walk(st.value))), "result")
     for n in ast.walk(up.node):
         if isinstance(n, ast.BinOp) and isinstance(n.op, ast.BitAnd) and isinstance(n.left, ast.Name):
             v = try_fold(n.right, cenv)
-            if n.left.id == "code" and isinstance(v, int):
+            if n.left.id != ACC and isinstance(v, int):
                 (rcont if v & (v - 1) == 0 else rmask).add(v)
-            if n.left.id == "result" and isinstance(v, int):
+            if n.left.id == ACC and isinstance(v, int):
                 rover.add(v)
-        if isinstance(n, ast.BinOp) and isinstance(n.op, ast.LShift) and isinstance(n.left, ast.Name) and n.left.id == "result":
+        if isinstance(n, ast.BinOp) and isinstance(n.op, ast.LShift) and isinstance(n.left, ast.Name) and n.left.id == ACC:
             v = try_fold(n.right, cenv)
             if isinstance(v, int):
                 rshift.add(v)
